@@ -709,6 +709,14 @@ def mk_field(t, name):
         if t[0] == "dc" and isinstance(t[1], tuple) and t[1] and t[1][0] == "agg":
             if t[1][2] == t[2]:
                 return mk_field(t[1], name)
+        if t[0] == "dc" and isinstance(t[1], tuple) and t[1] and t[1][0] == "phi":
+            # a downcast selects the alternatives built as that very variant (`match ev { V { x } => x, .. }` over a value
+            # returned by a small constructor function)
+            alts = [a for a in t[1][1] if isinstance(a, tuple) and a and a[0] == "agg"]
+            if alts and len(alts) == len(t[1][1]):
+                hit = [a for a in alts if a[2] == t[2]]
+                if len(hit) == 1:
+                    return mk_field(hit[0], name)
         if t[0] == "dc" and t[2] == "Some" and name == "0":
             return mk_some(t[1])
     return ("field", t, name)
